@@ -268,17 +268,25 @@ def oracle_C05(t, mt, flags, bad):
         # block and leaves the labels of the surviving nodes alone
         expect = collections.Counter(x.data.get('label') for x in all_nodes(t) if x.children and not (
             x.parent is not None and x.data.get('split') is True and x.data.get('head_block') is False))
-        r = transform.raising(t)
-        probs = monitor(r, mt.n())
-        if probs:
-            bad('ill-formed', 'raising', '; '.join(probs))
-            return
-        got = extract(r)
-        if [(tk['word'], tk['pos']) for tk in got.toks] != [(tk['word'], tk['pos']) for tk in mt.toks]:
-            bad('tokens-changed', 'raising', 'tokens %r' % got.toks)
-        got_labels = collections.Counter(nd[0] for nd, _ in model.mt_nodes(got.root))
-        if got_labels != expect:
-            bad('label-multiset', 'raising', 'labels %r, expected %r' % (dict(got_labels), dict(expect)))
+        from trees import treeoutput
+        for written in (False, True):
+            c = _copy(t)
+            where = 'raising'
+            if written:
+                # the split tree is written with the split decorations first (what one does to look at it), then raised
+                where = 'raising after an export pass with boyd_split_marking / boyd_split_numbering'
+                treeoutput.export(c, io.StringIO(), boyd_split_marking=True, boyd_split_numbering=True)
+            r = transform.raising(c)
+            probs = monitor(r, mt.n())
+            if probs:
+                bad('ill-formed', where, '; '.join(probs))
+                return
+            got = extract(r)
+            if [(tk['word'], tk['pos']) for tk in got.toks] != [(tk['word'], tk['pos']) for tk in mt.toks]:
+                bad('tokens-changed', where, 'tokens %r' % got.toks)
+            got_labels = collections.Counter(nd[0] for nd, _ in model.mt_nodes(got.root))
+            if got_labels != expect:
+                bad('label-multiset', where, 'labels %r, expected %r' % (dict(got_labels), dict(expect)))
         return
     if not ('ra' in flags and 'heads' in flags and 'split' not in flags) or not t.children:
         return
@@ -304,30 +312,44 @@ def oracle_C05(t, mt, flags, bad):
 
 # ---------------------------------------------------------------- C10 transitions
 def oracle_C10(t, mt, flags, bad):
-    """The gap and in-order oracles on live states that are head-marked and at most binary (the reference
-    automaton must rebuild the tree from the emitted sequence)."""
+    """The three oracles on live states (heads set by the harness from the edge labels, as in the fresh-tree check):
+    the reference automaton must execute the emitted sequence and rebuild the tree.  Only states in which every
+    constituent has at most one HD child (the head is then unambiguous); gap / topdown need arity <= 2, topdown /
+    inorder a continuous tree."""
     from .props import c10
     from trees import transitions
-    if 'heads' not in flags or not t.children:
+    if not t.children:
         return
-    if any(len(nd[2]) > 2 for nd, _ in model.mt_nodes(mt.root)):
-        return
+    for x in all_nodes(t):
+        if x.children and sum(1 for k in x.children if k.data.get('edge') == 'HD') > 1:
+            return
+    binary = all(len(nd[2]) <= 2 for nd, _ in model.mt_nodes(mt.root))
     cont = model.mt_tree_gap_degree(mt.root) == 0
-    n = mt.n()
-    for system in (('gap', 'inorder', 'topdown') if cont else ('gap',)):
-        c = _copy(t)
-        seq = list(getattr(transitions, system)(c))
-        exp = c10.show(c10.set_heads(c))
+    systems = []
+    if binary:
+        systems.append('gap')
+        if cont:
+            systems.append('topdown')
+    if cont:
+        systems.append('inorder')
+    for system in systems:
+        fn, with_heads = c10.REPLAY[system]
+        c = c10.set_heads(_copy(t))
+        terms, trans = getattr(transitions, system)(c)
+        seq = [str(x) for x in trans]
+        if list(terms) != [(tk['word'], tk['pos']) for tk in mt.toks]:
+            bad('sentence', 'transitions.' + system, 'returned sentence %r' % (list(terms),))
         try:
-            got = getattr(c10, 'replay_' + system)(n, [str(x) for x in seq])
-        except Exception as e:
-            bad('sequence-invalid', 'transitions.' + system, '%s: %s (sequence %r)' % (type(e).__name__, e, [str(x) for x in seq]))
+            rebuilt = fn(mt.n(), seq)
+        except c10.ReplayError as e:
+            bad('replay-stuck', 'transitions.' + system, '%s; sequence %s' % (e, ' '.join(seq)))
             continue
-        if c10.show(got) != exp:
-            bad('sequence-mismatch', 'transitions.' + system, 'sequence %r rebuilds %s, expected %s' % ([str(x) for x in seq], c10.show(got), exp))
+        exp = c10.expected(mt, with_heads)
+        if rebuilt != exp:
+            bad('replay-mismatch', 'transitions.' + system, 'sequence %s rebuilds %s, expected %s' % (' '.join(seq), c10.show(rebuilt), c10.show(exp)))
 
 
-ORACLES = {'C02': oracle_C02, 'C05': oracle_C05, 'C06': oracle_C06, 'C11': oracle_C11, 'C12': oracle_C12,
+ORACLES = {'C02': oracle_C02, 'C05': oracle_C05, 'C10': oracle_C10, 'C06': oracle_C06, 'C11': oracle_C11, 'C12': oracle_C12,
            'C13': oracle_C13, 'C14': oracle_C14, 'C15': oracle_C15, 'C16': oracle_C16, 'C19': oracle_C19}
 
 
